@@ -63,7 +63,7 @@ void harness(void) {
   pssize r;
 
   /* datagram 1: A -> B */
-  blk = ND_BOOL(); p_socket_set_blocking(A, blk);
+  blk = ND_BOOL(); p_socket_set_blocking(A, nd_pbool(blk));
 #ifdef CONNECTED
   vs_begin_call(FAULTS, VS_M_EINTR);
   VASSERT(p_socket_connect(A, addrB, &err) && err == NULL && p_socket_is_connected(A), "connect of a datagram socket sets the default destination");
@@ -78,7 +78,7 @@ void harness(void) {
   _Bool s1 = r >= 0;
   if (s1) VASSERT(r == n1 && err == NULL, "whole datagram sent"); else { no_blocking_error(err, blk); err = NULL; }
   /* datagram 2: C -> B */
-  blk = ND_BOOL(); p_socket_set_blocking(C, blk);
+  blk = ND_BOOL(); p_socket_set_blocking(C, nd_pbool(blk));
   vs_begin_call(FAULTS, VS_M_EINTR | VS_M_EAGAIN);
   vs.nb_call = !blk;
   r = p_socket_send_to(C, addrB, (const pchar *) d2, (psize) n2, &err);
@@ -93,7 +93,7 @@ void harness(void) {
     int bl = ND_RANGE(1, VS_CAP);
     PSocketAddress *from = NULL;
     _Bool use_from = (i == 0) || ND_BOOL();
-    blk = ND_BOOL(); p_socket_set_blocking(B, blk);
+    blk = ND_BOOL(); p_socket_set_blocking(B, nd_pbool(blk));
     p_socket_set_timeout(B, 0);
     vs_begin_call(FAULTS, VS_M_EINTR | VS_M_EAGAIN);
     vs.nb_call = !blk;
